@@ -118,6 +118,9 @@ func (p cprog) uids() [][]int {
 
 // admissible runs every merge of the threads' operation lists sequentially
 // against the same real code and returns the set of outcomes.
+// admissibleDeadlock: a sequential execution hung; nothing further is explored in this process.
+var admissibleDeadlock bool
+
 func (p cprog) admissible() map[string]string {
 	out := map[string]string{}
 	uids := p.uids()
@@ -125,6 +128,9 @@ func (p cprog) admissible() map[string]string {
 	var order []int // thread ids
 	var rec func()
 	rec = func() {
+		if admissibleDeadlock {
+			return
+		}
 		done := true
 		for t := range p.Threads {
 			if idx[t] < len(p.Threads[t]) {
@@ -145,18 +151,38 @@ func (p cprog) admissible() map[string]string {
 		pos := make([]int, len(p.Threads))
 		var errs []error
 		var desc []string
-		for i, op := range p.Pre {
-			errs = append(errs, applyOp(tr, p.Plan, op, i))
+		// a single delivery that never returns (a lock taken twice on one path)
+		// must not hang the oracle: each runs under a generous watchdog
+		stuck := ""
+		guarded := func(op HOp, uid int) {
+			if stuck != "" {
+				return
+			}
+			done := make(chan error, 1)
+			go func() { done <- applyOp(tr, p.Plan, op, uid) }()
+			select {
+			case e := <-done:
+				errs = append(errs, e)
+			case <-time.After(20 * time.Second):
+				stuck = op.String()
+			}
 		}
-		defer func() {}()
+		for i, op := range p.Pre {
+			guarded(op, i)
+		}
 		for _, t := range order {
 			op := p.Threads[t][pos[t]]
-			errs = append(errs, applyOp(tr, p.Plan, op, uids[t][pos[t]]))
+			guarded(op, uids[t][pos[t]])
 			desc = append(desc, op.String())
 			pos[t]++
 		}
 		for i, op := range p.Post {
-			errs = append(errs, applyOp(tr, p.Plan, op, p.postUID(i)))
+			guarded(op, p.postUID(i))
+		}
+		if stuck != "" {
+			out["DEADLOCK: delivery "+stuck+" did not return within 20 s in the sequential order "+strings.Join(desc, " ")] = strings.Join(desc, " ")
+			admissibleDeadlock = true
+			return
 		}
 		o := outcomeOf(r, errs)
 		if _, ok := out[o]; !ok {
@@ -234,6 +260,8 @@ func smallPrograms() []cprog {
 		// login line is then delivered again: in every sequential order the
 		// session exists by then (correlated or pending) and everything comes out
 		{Name: "P11 login'; (cleanup(all) || rec';ev'); login' again;ev'", Plan: p2, Pre: []HOp{L(1)}, Threads: [][]HOp{{CA}, {R(1), E(1)}}, Post: []HOp{L(1), E(1)}},
+		// a login delivered a second time while the first is still waiting, against its LOGIN record
+		{Name: "P13 login'; (login' again || rec';ev'); ev'", Plan: p2, Pre: []HOp{L(1)}, Threads: [][]HOp{{L(1)}, {R(1), E(1)}}, Post: []HOp{E(1)}},
 		{Name: "P12 login,login'; (cleanup(all) || rec';ev' || rec;ev); login,login' again;ev,ev'", Plan: p2, Pre: []HOp{L(0), L(1)}, Threads: [][]HOp{{CA}, {R(1), E(1)}, {R(0), E(0)}}, Post: []HOp{L(0), L(1), E(0), E(1)}},
 		{Name: "P10 rec; (noise;cleanup(all) || login';rec';ev';ev'); login;ev", Plan: p2, Pre: []HOp{R(0)}, Threads: [][]HOp{{U, CA}, {L(1), R(1), E(1), E(1)}}, Post: []HOp{L(0), E(0)}},
 	}
@@ -388,6 +416,14 @@ func c03Steer(r *vlib.Run) (execs int, distinct *vlib.Distinct) {
 	perProg := map[string]any{}
 	for _, p := range smallPrograms() {
 		adm := p.admissible()
+		if admissibleDeadlock {
+			for k := range adm {
+				if strings.HasPrefix(k, "DEADLOCK") {
+					r.Violation("C03:steer:deadlock:sequential:"+strings.Fields(p.Name)[0], p.String()+": "+k, map[string]any{"program": p.String()})
+				}
+			}
+			break // the hung delivery still holds its locks: nothing more can be learnt in this process
+		}
 		seen := map[string]int{}
 		maxDepth := 0
 		cap := r.Pick(60000, 2000000)
